@@ -145,6 +145,9 @@ func (n *VerifC17Node) SnapshotParts() []string {
 	return out
 }
 
+// Snapshot returns the number of parts and rows in the current snapshots of all shards.
+func (n *VerifC17Node) Snapshot() (int, uint64) { return len(n.SnapshotParts()), n.VerifC17RowCount() }
+
 // VerifC17RowCount counts the data points a full scan of the node returns (sum of TotalCount over the snapshot).
 func (n *VerifC17Node) VerifC17RowCount() uint64 {
 	var total uint64
@@ -238,6 +241,9 @@ func (sp *VerifC17SenderPart) StreamingPart(group, topic string) queue.Streaming
 	}
 }
 
+// PartDir is the part's directory on the sending side.
+func (sp *VerifC17SenderPart) PartDir() string { return sp.Dir }
+
 // TotalCount is the number of data points in the part.
 func (sp *VerifC17SenderPart) TotalCount() uint64 { return sp.p.partMetadata.TotalCount }
 
@@ -259,13 +265,13 @@ type VerifC17Liaison struct {
 }
 
 // VerifC17OpenLiaison opens the write queue shard under root, syncing to the given nodes through client.
-func VerifC17OpenLiaison(root, group string, client queue.Client, nodes []string, failedPartsQuota uint64) (*VerifC17Liaison, error) {
+func VerifC17OpenLiaison(root, group string, client queue.Client, nodes []string, failedPartsQuota uint64, flushWindow time.Duration) (*VerifC17Liaison, error) {
 	if err := os.MkdirAll(root, storage.DirPerm); err != nil {
 		return nil, err
 	}
 	opt := option{
 		protector: protector.Nop{}, mergePolicy: newDefaultMergePolicy(), tire2Client: client,
-		flushTimeout: 20 * time.Millisecond, syncInterval: time.Hour, failedPartsMaxTotalSizeBytes: failedPartsQuota,
+		flushTimeout: flushWindow, syncInterval: time.Hour, failedPartsMaxTotalSizeBytes: failedPartsQuota,
 	}
 	tst, epoch := initTSTable(fs.NewLocalFileSystem(), root, common.Position{}, logger.GetLogger("verif-c17-liaison"), opt, nil)
 	tst.getNodes = func() []string { return nodes }
@@ -306,6 +312,33 @@ func (l *VerifC17Liaison) FileParts() (dirs []string, mem int) {
 		}
 	}
 	return dirs, mem
+}
+
+// QueuedRows sums the rows of every part (mem or file) of the current snapshot.
+func (l *VerifC17Liaison) QueuedRows() uint64 {
+	snp := l.tst.currentSnapshot()
+	if snp == nil {
+		return 0
+	}
+	defer snp.decRef()
+	var n uint64
+	for _, pw := range snp.parts {
+		if pw.mp != nil {
+			n += pw.mp.partMetadata.TotalCount
+		} else {
+			n += pw.p.partMetadata.TotalCount
+		}
+	}
+	return n
+}
+
+// AddPointsToSegment appends one mem part that belongs to the given time segment of the write queue
+// (what write_liaison.go does per (shard, segment) of a write batch).
+func (l *VerifC17Liaison) AddPointsToSegment(seed int64, series, points int, baseTS, segmentID int64) int {
+	dps := verifC17Points(seed, series, points, baseTS)
+	n := len(dps.timestamps)
+	l.tst.mustAddDataPointsWithSegmentID(dps, segmentID, nil)
+	return n
 }
 
 // SyncOnce runs tsTable.syncSnapshot on the current snapshot (what one iteration of syncLoop does).
